@@ -363,7 +363,7 @@ pub fn gen_case(w: &World, seed: u64, id: u64) -> Case {
             4 | 8 | 9 | 10 => Some("InvalidMultiIndexStep"),
             11 => Some("MultipleDerivationPathIndexSteps"),
             12 => Some("InvalidWildcardInDerivationPath"),
-            13 => Some("DerivationPathTooLong"),
+            13 | 15 => Some("DerivationPathTooLong"),
             _ => None,
         };
         return c;
